@@ -573,7 +573,29 @@ Json::Value genTyped() {
     if (P(15)) d += "e" + std::to_string(R(-20, 20));
     a["d"] = d;
   }
-  if (P(60)) a["f"] = std::to_string(R(0, 1000)) + "." + digits(R(1, 6), false);
+  bool rangeDefect = false, underflow = false, noJson = false;
+  if (P(60)) {
+    // float arguments: ordinary values, values near the end of the float range, finite doubles outside the float
+    // range (must be rejected: no valid reading in the argument's type), and values that underflow a float (the
+    // property does not say whether these are rejected or read as the nearest float: don't-care)
+    int cls = W({64, 12, 16, 8});
+    if (cls == 0) a["f"] = std::to_string(R(0, 1000)) + "." + digits(R(1, 6), false);
+    if (cls == 1) a["f"] = oneOf(std::vector<std::string>{"3.4e38", "1.5e38", "-3.4e38", "1e-30", "3.0e+38", "16777217"});
+    if (cls == 2) {
+      a["f"] = oneOf(std::vector<std::string>{"3.5e38", "1e39", "-1e200", "1e308", "3.41e38", "-3.5e38", "4e38"});
+      rangeDefect = true;
+    }
+    if (cls == 3) {
+      a["f"] = oneOf(std::vector<std::string>{"1e-60", "1e-46", "-1e-300"});
+      underflow = true;
+    }
+  }
+  if (a.isMember("d") && P(8)) {
+    // beyond the double range: must be rejected; not written as a bare JSON number (the JSON reader has its own say)
+    a["d"] = oneOf(std::vector<std::string>{"1e400", "-1e999", "1.8e308"});
+    rangeDefect = true;
+    noJson = true;
+  }
   if (P(40)) a["b"] = oneOf(std::vector<std::string>{"true", "false", "True", "False", "1", "0"});
   if (P(40)) a["s"] = oneOf(std::vector<std::string>{"", "x", " 1.5G ", "9223372036854775807"});
   if (P(40)) a["r"] = P(50) ? "io" : "memory";
@@ -581,10 +603,12 @@ Json::Value genTyped() {
     long long iv = atoll(a["i"].asCString());
     if (iv > 2147483647LL || iv < -2147483648LL) valid = false;
   }
+  if (rangeDefect) valid = false;
   c["valid"] = valid;
+  c["underflow"] = underflow && valid;
   // the same values written as bare JSON numbers / booleans in a configuration
   // document ("threshold": 80.5): the text of the number must reach the plugin
-  c["via_json"] = P(35);
+  c["via_json"] = P(35) && !noJson;
   return c;
 }
 
@@ -905,9 +929,10 @@ Verdict run(const Json::Value& c) {
     for (size_t i = mark; i < g.trace.size(); i++)
       if (g.trace[i].k == "plugin" && g.trace[i].s == "typed_init") ev = &g.trace[i];
     bool valid = c["valid"].asBool();
-    if (v.ok && valid && !accepted) v.fail("valid typed arguments rejected: " + jstr(c["args"]));
-    if (v.ok && !valid && accepted) v.fail("an int argument outside the range of int was accepted: " + jstr(c["args"]));
-    if (v.ok && valid && ev) {
+    bool underflow = c.get("underflow", false).asBool();
+    if (v.ok && valid && !accepted && !underflow) v.fail("valid typed arguments rejected: " + jstr(c["args"]));
+    if (v.ok && !valid && accepted) v.fail("an argument outside the range of its type (int, float or double) was accepted: " + jstr(c["args"]));
+    if (v.ok && valid && ev && accepted) {
       const Json::Value& a2 = c["args"];
       auto bad = [&](const std::string& name, const std::string& got) {
         v.fail("argument " + name + "=" + a2[name].asString() + " arrived in the plugin as " + got);
@@ -917,7 +942,7 @@ Verdict run(const Json::Value& c) {
       if (a2.isMember("i") && ev->j["i"].asInt64() != atoll(a2["i"].asCString())) bad("i", jstr(ev->j["i"]));
       if (a2.isMember("u") && ev->j["u"].asInt64() != atoll(a2["u"].asCString())) bad("u", jstr(ev->j["u"]));
       if (a2.isMember("d") && ev->j["d"].asDouble() != strtod(a2["d"].asCString(), nullptr)) bad("d", jstr(ev->j["d"]));
-      if (a2.isMember("f")) {
+      if (a2.isMember("f") && !underflow) {
         float got = (float)ev->j["f"].asDouble(), want = strtof(a2["f"].asCString(), nullptr);
         // through a JSON number the text passes a double first: one float ulp of double rounding
         bool same = got == want || (viaJson && (got == std::nextafterf(want, INFINITY) || got == std::nextafterf(want, -INFINITY)));
